@@ -368,7 +368,8 @@ func (g *sqGen) newTable() *sqTable {
 	// checks
 	if g.r.Chance(1, 3) {
 		// one to three checks, named or not (several unnamed ones in one table included)
-		exprs := []string{"id >= 0", "id * 1 >= 0", "id <> -1", "id + 1 > 0"} // (never the `id > -N` of the add-check edit: a duplicated expression is one constraint)
+		// (the last three start with "(" and end with ")" without being one parenthesised group)
+		exprs := []string{"id >= 0", "id * 1 >= 0", "id <> -1", "id + 1 > 0", "(id >= -2) AND (id <> -3)", "(id) < (id + 4)", "(id) NOT IN (-5, -6)"} // (never the `id > -N` of the add-check edit: a duplicated expression is one constraint)
 		hx.Shuffle(g.r, exprs)
 		for _, x := range exprs[:1+g.r.Intn(3)] {
 			ck := sqCheck{Expr: x}
@@ -404,11 +405,12 @@ func (g *sqGen) index(t *sqTable) sqIdx {
 		used[c] = true
 		ix.Parts = append(ix.Parts, sqPart{Col: c, Desc: g.r.Chance(1, 3)})
 	}
-	if !g.cfg.NoExprIndex && g.r.Chance(1, 6) {
+	if !g.cfg.NoExprIndex && g.r.Chance(1, 4) {
 		ix.Parts = append(ix.Parts, sqPart{Expr: hx.Pick(g.r, []string{"id + 1", "abs(id)", "id * 2"}), Desc: g.r.Chance(1, 2), Bare: g.r.Chance(1, 2)})
 	}
 	if g.r.Chance(1, 4) {
-		ws := []string{"id > 0", "id > 1 AND id < 1000", "id IS NOT NULL", "id > 0 AND 'nowhere' <> 'somewhere else'"}
+		// (the last three end with ")")
+		ws := []string{"id > 0", "id > 1 AND id < 1000", "id IS NOT NULL", "id > 0 AND 'nowhere' <> 'somewhere else'", "(id > 0)", "id NOT IN (-1, -2)", "id <> abs(id - 1)"}
 		if t.col("elsewhere") != nil {
 			ws = append(ws, "elsewhere IS NOT NULL", "elsewhere > 0 AND id > 0")
 		}
@@ -491,7 +493,28 @@ type sqEdit struct {
 func (g *sqGen) edit(s *sqSchema) *sqEdit {
 	for try := 0; try < 20; try++ {
 		t := hx.Pick(g.r, s.Tables)
-		switch g.r.Intn(14) {
+		switch g.r.Intn(15) {
+		case 14:
+			// every stored column of the table gets another default at once: the table is rebuilt and no column
+			// is carried over unchanged
+			n := 0
+			for i := range t.Cols {
+				c := &t.Cols[i]
+				if c.Gen != "" {
+					continue
+				}
+				old := c.Default
+				for k := 0; k < 8 && (c.Default == old || c.Default == "NULL" || c.Default == ""); k++ {
+					c.Default = g.defaultFor(c.Type)
+				}
+				if c.Default == old || c.Default == "NULL" || c.Default == "" {
+					c.Default = map[bool]string{true: "x'01'", false: "x'00ff'"}[old == "x'00ff'"]
+				}
+				n++
+			}
+			if n > 0 {
+				return &sqEdit{"modify-all-column-defaults", t.Name, ""}
+			}
 		case 0:
 			nt := g.newTable()
 			s.Tables = append(s.Tables, nt)
